@@ -205,7 +205,7 @@ class WindowedCoordinator:
 
                 # Latency override
                 if link.latency is not None:
-                    sampled = link.latency.sample()
+                    sampled = link.latency.get_latency(send_time)
                     event.time = send_time + sampled
                 else:
                     # Validate min_latency
